@@ -24,6 +24,9 @@ var solvers = []solverSpec{
 		return []string{"z3-new", fmt.Sprintf("-T:%d", s), "smt.mbqi=false", "smt.arith.solver=2", f}
 	}},
 	{"cvc5", func(f string, s int) []string { return []string{"cvc5", fmt.Sprintf("--tlimit=%d", s*1000), f} }},
+	{"cvc5/enum", func(f string, s int) []string {
+		return []string{"cvc5", fmt.Sprintf("--tlimit=%d", s*1000), "--full-saturate-quant", f}
+	}},
 	{"z3", func(f string, s int) []string { return []string{"z3", fmt.Sprintf("-T:%d", s), f} }},
 	{"z3/ematch", func(f string, s int) []string { return []string{"z3", fmt.Sprintf("-T:%d", s), "smt.mbqi=false", f} }},
 }
@@ -86,11 +89,37 @@ func runSolver(ctx context.Context, sp solverSpec, file string, secs int) solveR
 func solveOne(dir, id, query string, quickSecs, fullSecs int) solveResult {
 	file := filepath.Join(dir, id+".smt2")
 	os.WriteFile(file, []byte(query), 0o644)
-	r := runSolver(context.Background(), solvers[0], file, quickSecs)
-	total := r.secs
-	if r.status == "unsat" || r.status == "sat" {
-		return r
+	var r solveResult
+	if strings.Contains(query, "(forall ") {
+		// quantified query: z3 and cvc5 with enumerative instantiation complement each other
+		ctx1, cancel1 := context.WithCancel(context.Background())
+		ch1 := make(chan solveResult, 2)
+		var enum solverSpec
+		for _, sp := range solvers {
+			if sp.name == "cvc5/enum" {
+				enum = sp
+			}
+		}
+		go func() { ch1 <- runSolver(ctx1, solvers[0], file, quickSecs) }()
+		go func() { ch1 <- runSolver(ctx1, enum, file, quickSecs) }()
+		for k := 0; k < 2; k++ {
+			x := <-ch1
+			if x.status == "unsat" || x.status == "sat" {
+				cancel1()
+				return x
+			}
+			if x.solver == solvers[0].name {
+				r = x
+			}
+		}
+		cancel1()
+	} else {
+		r = runSolver(context.Background(), solvers[0], file, quickSecs)
+		if r.status == "unsat" || r.status == "sat" {
+			return r
+		}
 	}
+	total := r.secs
 	firstErr := r
 	ctx, cancel := context.WithCancel(context.Background())
 	defer cancel()
